@@ -15,10 +15,14 @@ EXPLANATION = (
     "`$`; no built-in language overrides meta_var_char (templates scan for `$` everywhere). R3 the language table is exhaustive: "
     "SupportLang::all_langs() has as many entries as SupportLang has variants, and the dispatch of each syntax method has an arm "
     "for every variant calling that variant's own language struct. R4 template-side and pattern-side recognisers share one "
-    "character class (C12-R5)."
+    "character class (C12-R5). R5 units of the substring notation: every length/default handed to resolve_char by Substring::compute is a "
+    "CHARACTER count (length of a Vec<char>/[char], or Chars::count) and never a byte length (str/String/[u8]::len), and the resolved "
+    "indices are applied to a character sequence (Vec<char>/[char] indexing or skip/take over chars), never to a str byte slice — the part "
+    "of 'Python slice semantics on characters' that is visible in the shape of the code; resolve_char's negative-index arm adds the "
+    "same `len` it clamps with."
 )
 NOT_DECIDED = (
-    "The small notations: An+B index arithmetic, substring slice semantics, and the bounded-exhaustive string clauses are value "
+    "The small notations: An+B index arithmetic, substring slice arithmetic as values (R5 decides only the unit discipline), and the bounded-exhaustive string clauses are value "
     "level (their crash behaviour is audited under C11); that each grammar tokenises the expando character as an identifier character."
 )
 TRUSTED = ["compiler impl tables and MIR", "tree-sitter grammars accept the chosen expando characters inside identifiers"]
@@ -64,6 +68,7 @@ def run(ctx):
     ctx.rule("R1", "one recogniser: default extract_meta_var uses the language's expando; wrappers forward every syntax method a wrapped language really overrides")
     ctx.rule("R2", "built-in languages: expando_char overridden <=> pre_process_pattern overridden and resolving to the shared routine with the language's own expando; meta_var_char never overridden")
     ctx.rule("R3", "language table exhaustive: all_langs length == number of SupportLang variants; per-variant dispatch of the syntax methods")
+    ctx.rule("R5", "substring indices are character counts end to end (no byte length reaches resolve_char or the slicing)")
     ctx.rule("R4", "one character class for pattern-side and template-side recognisers")
     impls = prog.impls_of(LANG)
     ctx.floor("R1", "Language impls", len(impls), 27)
@@ -180,3 +185,81 @@ def run(ctx):
     c12.r5(sub)
     for o in sub.obligations:
         ctx.ob("R4", o["key"].split(":", 1)[1], o["ok"], o["detail"], where=o["where"])
+
+    r5(ctx)
+
+
+CHAR_SEQ = re.compile(r"^&?(mut )?(alloc::vec::Vec<char>|\[char\]|core::str::iter::Chars<'_>|core::slice::iter::Iter<'_, char>)$")
+BYTE_SEQ = re.compile(r"^&?(mut )?(str|alloc::string::String|alloc::vec::Vec<u8>|\[u8\]|alloc::borrow::Cow<'_, str>|core::str::iter::Bytes<'_>)$")
+
+
+def _len_unit(f, c):
+    """unit of a length-producing call: 'chars' | 'bytes' | None"""
+    if c.name not in ("len", "count", "chars_count") or not c.args or c.args[0][0] == "k":
+        return None
+    ty = f.locals[c.args[0][1][0]]
+    if CHAR_SEQ.match(ty):
+        return "chars"
+    if BYTE_SEQ.match(ty):
+        return "bytes"
+    return None
+
+
+def r5(ctx):
+    prog = ctx.prog
+    f = ctx.anchor("R5", r"^ast_grep_config::transform::transformation::Substring::<ast_grep_core::meta_var::MetaVariable>::compute$")
+    rc = ctx.anchor("R5", r"^ast_grep_config::transform::transformation::resolve_char$")
+    if not f or not rc:
+        return
+    calls = [c for c in f.calls if prog.call_targets(c) == [rc.id]]
+    ctx.floor("R5", "resolve_char calls in Substring::compute", len(calls), 2)
+    for n, c in enumerate(calls):
+        for ai, what in ((1, "default"), (2, "len")):
+            a = c.args[ai]
+            if a[0] == "k":
+                ctx.ob("R5", "resolve_char#%d/%s" % (n, what), True, "constant %s" % a[1].get("v"), where=f.loc(c.line), nontrivial=False)
+                continue
+            units = {}
+            for o in f.trace_operand(a):
+                if o.kind == "call":
+                    units[o.ref.best] = _len_unit(f, o.ref)
+                elif o.kind == "const":
+                    units["const"] = "chars"
+                else:
+                    units[describe_origin(f, o)] = None
+            ok = bool(units) and all(u == "chars" for u in units.values())
+            ctx.ob("R5", "resolve_char#%d/%s is a character count" % (n, what), ok,
+                   "%s: %s" % (what, units) if ok else
+                   "the %s handed to resolve_char is not a character count (%s): negative indices resolve as len + c, so with a byte length every text with a multi-byte "
+                   "character is sliced at the wrong place" % (what, {k: v or "unclassified" for k, v in units.items()}), where=f.loc(c.line))
+    # where the resolved indices are applied
+    sinks = []
+    for c in f.calls:
+        if c.name in ("index", "get", "skip", "take", "nth", "split_at", "get_unchecked") and len(c.args) >= 2 and c.args[1][0] != "k":
+            if any(o.kind == "call" and o.ref in calls for o in deep_roots(prog, f, c.args[1], TRANSPARENT | {"sub", "add"})) or \
+               any(o.kind == "call" and o.ref in calls for op in _range_operands(f, c.args[1]) for o in f.trace_operand(op)):
+                ty = f.locals[c.args[0][1][0]] if c.args[0][0] != "k" else "?"
+                sinks.append((c, ty))
+    ctx.ob("R5", "resolved indices are applied somewhere", bool(sinks), "%d slicing site(s)" % len(sinks), where=f.loc(), nontrivial=False)
+    for c, ty in sinks:
+        ok = bool(CHAR_SEQ.match(ty)) or "Chars<" in ty or "Skip<" in ty and "Chars" in ty
+        ctx.ob("R5", "slice sink %s#%d on a character sequence" % (c.name, [x[0] for x in sinks].index(c)), ok,
+               "indices from resolve_char index %s" % ty if ok else "character indices from resolve_char are applied to %s (byte offsets): wrong text or a char-boundary panic" % ty, where=f.loc(c.line))
+    # resolve_char: the negative arm adds the same len it compares with
+    adds = [s for bi in rc.live_blocks for s in rc.blocks[bi]["s"] if s[0] == "A" and s[2][0] in ("bin", "checked") and s[2][1] in ("Add", "AddWithOverflow")]
+    ok = bool(adds)
+    for s in adds:
+        ops = [o for op in (s[2][2], s[2][3]) if op[0] != "k" for o in rc.trace_operand(op)]
+        if not any(o.kind == "param" and o.ref == 3 for o in ops):
+            ok = False
+    ctx.ob("R5", "resolve_char negative index is len + c", ok, "%d addition(s), each with the len parameter as an operand" % len(adds), where=rc.loc())
+
+
+def _range_operands(f, op):
+    out = []
+    if op[0] == "k":
+        return out
+    for o in f.trace_operand(op):
+        if o.kind == "agg" and "Range" in (o.ref[2][1].get("adt") or ""):
+            out += [x for x in o.ref[2][2] if x[0] != "k"]
+    return out
